@@ -95,4 +95,28 @@ theorem wfEx_reject_eval :
     { accept := false, status := .NSG, path := [-1, 1, 2, 1, -1], returnedOld := true, oldRewritten := true,
       genSucc := 0, genLen := 5, timeOrigin := 0, draws := [.random, .integers 1 4] } := by decide +kernel
 
+/-! a QuanTIS zero swap whose first leg (new [0-] path) succeeds and whose second leg (new [0+] path)
+    runs into the length limit: move status FTX, yet the returned new [0-] trial has `.status = "ACC"` -/
+namespace QEx
+open Infretis.ZeroSwap
+def fr (o : Int) (x : Int) : Frame := { op := o, cfg := ⟨x, 1⟩, vr := false, vpot := some 0 }
+def g (o : Int) (x : Int) : GenFrame := { op := o, cfg := ⟨x, 3⟩, vpot := some 0 }
+def e0 : Ens := { i0 := -50, i1 := 0, i2 := 0, maxlen := 8, scL := false, scR := true, wf := false, cap := none }
+def e1 : Ens := { i0 := 0, i1 := 1, i2 := 3, maxlen := 8, scL := true, scR := false, wf := false, cap := none }
+def old0 : List Frame := [fr 1 100, fr (-1) 101, fr (-2) 102, fr 1 103]
+def old1 : List Frame := [fr (-1) 200, fr 1 201, fr 2 202, fr 4 203]
+def scA : Script := ⟨some 2, [g 1 500]⟩
+def scB : Script := ⟨some 0, [g 1 600]⟩
+def bw : Script := ⟨some 0, [g (-2) 300, g (-1) 301, g 1 302, g 1 303]⟩
+def fwLong : Script := ⟨some 0, [g 1 400, g 2 401, g 1 402, g 1 403, g 1 404, g 1 405, g 1 406, g 1 407]⟩
+
+theorem swap_eval : (quantisSwapZero e0 e1 old0 old1 scA scB bw fwLong true 1 1 0 1).toOption.map
+    (fun r => (r.accept, r.status, r.st0, r.st1, ops r.path0)) =
+    some (false, .FTX, .ACC, .FTX, [1, -1, -2, -1, 1]) := by decide +kernel
+
+theorem md_eval : (runMdQuantis e0 e1 old0 old1 scA scB bw fwLong true 1 1 0 1).toOption =
+    some { status := .FTX, live0 := old0, live1 := old1, replaced0 := false, replaced1 := false } := by
+  decide +kernel
+end QEx
+
 end Infretis.Moves
